@@ -189,6 +189,21 @@ func (s *Sandbox) blobPut(ls *lua.LState) int {
 		ls.ArgError(2, "blob content expected")
 	}
 
+	if s.dryRun {
+		// compute the digest and size without pushing the blob
+		s.log.Info("Put blob",
+			slog.String("script", s.name),
+			slog.String("ref", r.r.CommonName()),
+			slog.Bool("dry-run", s.dryRun))
+		digester := descriptor.Descriptor{Digest: d}.DigestAlgo().Digester()
+		size, err := io.Copy(digester.Hash(), rdr)
+		if err != nil {
+			ls.RaiseError("Failed to read blob: %v", err)
+		}
+		ls.Push(lua.LString(digester.Digest().String()))
+		ls.Push(lua.LNumber(size))
+		return 2
+	}
 	dOut, err := s.rc.BlobPut(s.ctx, r.r, descriptor.Descriptor{Digest: d}, rdr)
 	if err != nil {
 		ls.RaiseError("Failed to put blob: %v", err)
